@@ -156,6 +156,30 @@ def body_shift(E, n, m):
     E.prove(E.all([E.eq(H0[i, j], H1[i, j]) for i in range(n) for j in range(n)]), 'shift:hessian-of-full-model-unchanged')
 
 
+def body_shift_fp(E):
+    """binary64: a base shift moves every stored offset by ONE rounded subtraction (points - shift); in particular the relative
+    geometry is perturbed by at most half an ulp of the offsets, not by an ulp of the (possibly far away) base point"""
+    from .. import sym
+    Model = E.get('Model')
+    x0 = E.vec('x0_', 1, fp=True)
+    p = E.vec('p', 1, fp=True)
+    s = E.vec('s', 1, fp=True)
+    if E.symbolic:
+        import z3
+        for a in (x0, p, s):
+            for v in a.flat():
+                E.assume(sym.wrapb(z3.Not(z3.Or(z3.fpIsNaN(v.t), z3.fpIsInf(v.t)))), check=False)
+    E.assume(E.all([x0[0] >= -10 ** 9, x0[0] <= 10 ** 9, p[0] >= -1, p[0] <= 1, s[0] >= -1, s[0] <= 1]), check=False)
+    big = 1e20
+    M = Model(2, x0, E.arr([0.5], 'f'), E.arr([-big], 'f'), E.arr([big], 'f'), [], 1, do_logging=False)
+    M.points[1, :] = p
+    M.npt_so_far = 2
+    M.shift_base(s)
+    expect = p[0] - s[0]
+    E.prove(M.points[1, 0] == expect, 'shift:offsets-move-by-one-rounded-subtraction')
+    E.prove(M.xbase[0] == x0[0] + s[0], 'shift:base-moves-by-the-shift')
+
+
 FUNCS = ['model.Model.interpolation_matrix', 'model.Model.factorise_geom_system', 'model.Model.solve_geom_system',
          'model.Model.interpolate_mini_models_svd', 'model.Model.build_full_model', 'model.Model.shift_base', 'model.Model.xpt_directions',
          'model.Model.distances_to_xopt']
@@ -193,6 +217,9 @@ def harnesses(tier, seed):
         hs.append(Harness("shift-invariance[n=%d,m=%d]" % (n, m), 'dfverif.checks.c16', 'body_shift', params=dict(n=n, m=m),
                           cfg=core.Cfg(fork_queries=True, qtimeout_ms=60000), functions=FUNCS, bounds="n=%d, m=%d, everything symbolic" % (n, m),
                           assumptions=["real arithmetic (polynomial identities)"], expect=['shift:gradient-of-full-model-unchanged'], nproc=1))
+    hs.append(Harness("shift-binary64", 'dfverif.checks.c16', 'body_shift_fp', params={}, cfg=core.Cfg(fork_queries=True, qtimeout_ms=120000, logic='QF_FP'),
+                      functions=['model.Model.shift_base'], bounds="IEEE binary64, one coordinate, |base| <= 1e9, offsets and shift in [-1,1]",
+                      assumptions=["finite inputs"], expect=['shift:offsets-move-by-one-rounded-subtraction'], nproc=1))
     return hs
 
 
